@@ -46,14 +46,44 @@ PROPS["C07"] = dict(
     assumptions=[A2],
 )
 
+CUBIC = "quic/congestion/cubic.py::CubicCongestionControl."
+RTTM = "quic/congestion/base.py::QuicRttMonitor."
+REC = "quic/recovery.py::QuicPacketRecovery."
+CB_FRAME = "callback frame (OPAQUE_CALL in contracts/quic_recovery.py): delivery handlers and the send_probe callback neither raise nor modify the sent-packet maps / counters of the packet spaces, the QuicSentPacket records, the congestion controller, the pacer or QuicPacketRecovery's own fields; everything else they may reach is havocked"
+ACKSET_LOCAL = "the RangeSet handed to on_ack_received is local to that call (built by the frame parser): delivery handlers cannot modify it (opaque_keeps)"
+REC_INIT = "initial state: QuicPacketRecovery.__init__ (create_congestion_control goes through a module-level factory dict, outside the subset) and QuicPacketSpace.__init__ are not verified; the ledger invariant is assumed to hold initially (bytes_in_flight = 0 by the class attribute default, no packet tracked, ghost totals 0)"
+REC_PRE = "caller obligations of QuicPacketRecovery (preconditions, to be discharged in connection.py, not proved here): on_packet_sent is called with a packet number not yet tracked in that space, sent_bytes >= 0, sent_time set, and a packet object that was never registered or reported before; on_ack_received with a non-empty range set; the multi-space operations with every space in self.spaces satisfying space_ok"
+DICT_MODEL = "engine/pyvc/dictiter.py: dict views are enumerated in an ARBITRARY order of pairwise distinct keys covering exactly the domain (sorted(): ascending); ghost sums over a dict's values (R.dict_sum) are maintained by the engine at every store/del/pop/clear and tied to enumerations by prefix sums (facts about finite sums, stated in the module docstring); filter() is modelled as evaluated at creation"
+RTTM_INIT = "QuicRttMonitor.__init__ (list comprehension) is assumed to establish: 5 samples, index 0, not ready"
+CUBE_ROOT = "better_cube_root (float ** (1/3)) is modelled as an arbitrary real; no fact about it is used (assumed only not to raise)"
+
 PROPS["C08"] = dict(
-    functions=[RENO + "__init__", RENO + "on_packet_acked", RENO + "on_packet_sent", RENO + "on_packets_lost", "quic/congestion/cubic.py::CubicCongestionControl.on_packets_lost"],
+    functions=[
+        RENO + "__init__", RENO + "on_packet_acked", RENO + "on_packet_sent", RENO + "on_packets_expired", RENO + "on_packets_lost", RENO + "on_rtt_measurement",
+        CUBIC + "__init__", CUBIC + "reset", CUBIC + "on_packet_acked", CUBIC + "on_packet_sent", CUBIC + "on_packets_expired", CUBIC + "on_packets_lost", CUBIC + "on_rtt_measurement",
+        RTTM + "add_rtt", RTTM + "is_rtt_increasing",
+        RS + "__contains__", "quic/recovery.py::QuicPacketPacer.update_rate",
+        REC + "on_packet_sent", (REC + "on_ack_received", 4), REC + "_on_packets_lost", REC + "_detect_loss", REC + "_get_loss_space",
+        REC + "on_loss_detection_timeout", REC + "reschedule_data", REC + "discard_space",
+    ],
     bounded=["native-xcheck-reno"],
-    scope="decided for the Reno controller, all call sequences (class invariant): congestion_window >= 2 * max_datagram_size after construction and after every acked/sent/lost callback; a loss event never raises the window; bytes_in_flight changes by exactly the packet size on sent/acked. CUBIC: on_packets_lost alone, as a Hoare triple (window >= 2*mds before implies window >= 2*mds after)",
-    lemma="clause 'the congestion window never drops below two datagrams' = class invariant of RenoCongestionControl (established by __init__, preserved by on_packet_acked, on_packet_sent, on_packets_lost)",
-    not_decided="CUBIC on_packet_acked / reset (float cube roots; its window growth is not under contract, so the CUBIC floor is not an inductive class invariant here), the in-flight ledger of QuicPacketRecovery (sum over the sent-packet maps), at-most-once delivery callbacks, the builder's flight budget",
-    trusted_base=BASE + [A1, "QuicRttMonitor.__init__ assumed total (stub)"],
-    assumptions=[A1, A2],
+    scope=(
+        "decided for all states, arguments and call histories (class invariants / per-operation contracts), floats as reals: "
+        "(a) WINDOW FLOOR, Reno and CUBIC: congestion_window >= 2 * max_datagram_size is an inductive class invariant of both controllers (established by __init__ / reset, preserved by on_packet_acked, on_packet_sent, on_packets_expired, on_packets_lost, on_rtt_measurement); "
+        "(b) CONTROLLER LEDGER, Reno and CUBIC (both satisfy one interface contract of QuicCongestionControl, same preconditions): bytes_in_flight moves by exactly +sent_bytes on sent, -sent_bytes on acked, minus the total sent_bytes of the list on lost/expired (prefix-sum witness), is untouched by on_rtt_measurement and by CUBIC's reset() (also enforced as a frame condition); "
+        "(c) RECOVERY LEDGER: after each of on_packet_sent, on_ack_received (ANY non-empty range set: never-sent, already-acked, beyond-largest numbers), _detect_loss, _on_packets_lost, on_loss_detection_timeout, reschedule_data and discard_space, controller.bytes_in_flight equals the ghost total g_total, which moves only together with the touched space's g_flight = SUM over that space's sent_packets of (sent_bytes if in_flight else 0), a sum the engine maintains at every mutation of the dict; g_flight >= 0 for every space; "
+        "(d) SINGLE REMOVAL: on_ack_received removes exactly the tracked packets whose number is in the acknowledged set; every packet declared lost is removed from the map whether or not it is in flight; discard_space empties the map; no operation adds or replaces an entry except on_packet_sent (exactly one new number); "
+        "(e) AT MOST ONCE: every packet removed by ack/loss has its delivery handlers run exactly once, with ACKED iff its number is in the acknowledged set and LOST otherwise, no other packet's handlers run, discard_space runs none; a tracked packet has never been reported and a reported packet is never tracked again (ghost report counters and single-registration owner), so each packet is reported at most once over any history; "
+        "(f) ack_eliciting_in_flight equals the number of tracked ack-eliciting packets (engine-maintained count) after every operation."
+    ),
+    lemma=(
+        "ledger clause of C08: by (c) the invariant cc.bytes_in_flight = g_total holds after every public recovery call, and every contract states g_total - space.g_flight unchanged for the one space it touches while other spaces' fields are outside its frame, so g_total = SUM over spaces of g_flight (induction over the call history from the initial state, assumption REC_INIT); g_flight is the exact sum over the tracked in-flight packets (engine-maintained, dictiter.py); hence bytes in flight = total size of the in-flight packets still tracked, and >= 0 because every g_flight >= 0 (proved from sent_bytes >= 0 of tracked packets). 'reported at most once' = (e). 'window never below two datagrams' = (a). All controller calls made by recovery.py go through the interface contract that both controllers are proved to satisfy."
+    ),
+    not_decided=(
+        "the flight budget of the packet builder / datagrams_to_send (last sentence of C08: in-flight bytes per send versus the window, probe datagram exception); the preconditions listed under REC_PRE at the call sites in connection.py; QuicPacketRecovery.__init__ / QuicPacketSpace.__init__ (REC_INIT); which packets _detect_loss examines (the dict order is left arbitrary, so the early `break` is not credited; only that whatever it declares lost is tracked, distinct and not newer than the largest acknowledged number); get_loss_detection_time / get_probe_timeout (timers, C09); behaviour when a delivery handler raises; floating-point rounding (A1)"
+    ),
+    trusted_base=BASE + [A1, DICT_MODEL, CB_FRAME, ACKSET_LOCAL, RTTM_INIT, CUBE_ROOT, "qlog/logging calls (QuicLoggerTrace.log_event/packet_type/encode_time, QuicPacketRecovery._log_metrics_updated, logger.debug) are stubs without effect on protocol state"],
+    assumptions=[A1, A2, CB_FRAME, ACKSET_LOCAL, REC_INIT, REC_PRE, RTTM_INIT, CUBE_ROOT],
 )
 
 PROPS["C10"] = dict(
